@@ -172,6 +172,7 @@ pub fn build_extra_scenario(seed: u64, k: u64, tier: &str, _samples: &Samples) -
         p.xnum_sh = img_idx % 3 == 1;
         p.xnum_ph = img_idx % 3 == 2;
         p.xindex = img_idx % 4 == 3;
+        p.xnum_zero = false;
         let mut b = gen::build(&mut g, &p);
         let m = Model::of(&b);
         let e = m.ehdr.unwrap();
@@ -276,6 +277,7 @@ pub fn build_extra_scenario(seed: u64, k: u64, tier: &str, _samples: &Samples) -
             init_pos: io.below(len + 6),
             overrides: Vec::new(),
             heal_at_epilogue: false,
+            clean_after_failure: false,
         },
         epilogue: false,
         recipe,
